@@ -67,6 +67,9 @@ func init() {
 		"verifIteInt": func(fr *frame, args []value) value {
 			return fr.m.st().Ite(args[0].(*Term), args[1].(*Term), args[2].(*Term))
 		},
+		"verifB2U": func(fr *frame, args []value) value {
+			return fr.m.st().Ite(args[0].(*Term), BV(1, 64), BV(0, 64))
+		},
 		"verifStrEq": func(fr *frame, args []value) value { return fr.m.strEq(args[0], args[1]) },
 		"verifBytesEq": func(fr *frame, args []value) value {
 			a, _ := args[0].([]value)
